@@ -49,8 +49,17 @@ struct BrkSpec {
 #[derive(Clone, Debug)]
 struct Setup {
     flow: Option<FlowKind>,
-    hot: Option<HotKind>,
-    brk: Option<BrkSpec>,
+    hot: Vec<HotKind>,
+    brk: Vec<BrkSpec>,
+}
+
+impl Setup {
+    /// with more than one hotspot rule or breaker on the resource the trace depends on
+    /// the (hash) order in which the slot consults them, so only object identity and
+    /// breaker states across the reload are asserted
+    fn order_sensitive(&self) -> bool {
+        self.hot.len() > 1 || self.brk.len() > 1
+    }
 }
 
 #[derive(Clone, Debug)]
@@ -120,17 +129,25 @@ fn flow_rules(res: &str, k: &FlowKind) -> Vec<Arc<flow::Rule>> {
     }
 }
 
-fn hot_rules(res: &str, k: &HotKind) -> Vec<Arc<hotspot::Rule>> {
+fn hot_rules(res: &str, ks: &[HotKind]) -> Vec<Arc<hotspot::Rule>> {
+    ks.iter().map(|k| hot_rule(res, k)).collect()
+}
+
+fn hot_rule(res: &str, k: &HotKind) -> Arc<hotspot::Rule> {
     let base = hotspot::Rule { resource: res.into(), param_index: 0, params_max_capacity: 16, ..Default::default() };
-    vec![Arc::new(match k {
+    Arc::new(match k {
         HotKind::QpsReject { q, burst, d } => hotspot::Rule { metric_type: hotspot::MetricType::QPS, control_strategy: hotspot::ControlStrategy::Reject, threshold: *q, burst_count: *burst, duration_in_sec: *d, ..base },
         HotKind::QpsThrottle { q, d, maxq } => hotspot::Rule { metric_type: hotspot::MetricType::QPS, control_strategy: hotspot::ControlStrategy::Throttling, threshold: *q, duration_in_sec: *d, max_queueing_time_ms: *maxq, ..base },
         HotKind::Concurrency { t } => hotspot::Rule { metric_type: hotspot::MetricType::Concurrency, threshold: *t, ..base },
-    })]
+    })
 }
 
-fn brk_rules(res: &str, b: &BrkSpec) -> Vec<Arc<cb::Rule>> {
-    vec![Arc::new(cb::Rule {
+fn brk_rules(res: &str, bs: &[BrkSpec]) -> Vec<Arc<cb::Rule>> {
+    bs.iter().map(|b| brk_rule(res, b)).collect()
+}
+
+fn brk_rule(res: &str, b: &BrkSpec) -> Arc<cb::Rule> {
+    Arc::new(cb::Rule {
         resource: res.into(),
         strategy: [cb::BreakerStrategy::SlowRequestRatio, cb::BreakerStrategy::ErrorRatio, cb::BreakerStrategy::ErrorCount][b.strategy as usize],
         threshold: b.threshold,
@@ -140,7 +157,7 @@ fn brk_rules(res: &str, b: &BrkSpec) -> Vec<Arc<cb::Rule>> {
         min_request_amount: b.min,
         max_allowed_rt_ms: 20,
         ..Default::default()
-    })]
+    })
 }
 
 /// pointer identity of the enforcing objects of `res`
@@ -150,10 +167,10 @@ fn object_ids(res: &String) -> Vec<(String, usize)> {
         v.push((format!("flow:{}:{}", c.rule().threshold, c.rule().stat_interval_ms), Arc::as_ptr(&c) as *const () as usize));
     }
     for c in hotspot::get_traffic_controller_list_for(res) {
-        v.push((format!("hot:{:?}", c.rule().metric_type), Arc::as_ptr(&c) as *const () as usize));
+        v.push((format!("hot:{:?}:{:?}:{}", c.rule().metric_type, c.rule().control_strategy, c.rule().threshold), Arc::as_ptr(&c) as *const () as usize));
     }
     for b in cb::get_breakers_of_resource(res) {
-        v.push((format!("cb:{:?}", b.bound_rule().strategy), Arc::as_ptr(&b) as *const () as usize));
+        v.push((format!("cb:{:?}:{}:{:?}", b.bound_rule().strategy, b.bound_rule().threshold, b.current_state()), Arc::as_ptr(&b) as *const () as usize));
     }
     v.sort();
     v
@@ -189,8 +206,9 @@ fn load_all(res: &String, other: &String, setup: &Setup, other_variant: u8, extr
             rets.push(format!("flow::load_rules_of_resource -> {:?}", flow::load_rules_of_resource(res, rules).ok()));
         }
     }
-    if let Some(k) = &setup.hot {
-        let mut rules = hot_rules(res, k);
+    if !setup.hot.is_empty() {
+        let mut rules = hot_rules(res, &setup.hot);
+        rules.reverse();
         if extra_lax {
             rules.push(Arc::new(hotspot::Rule { resource: res.clone(), metric_type: hotspot::MetricType::Concurrency, param_index: 7, threshold: 1_000_000, params_max_capacity: 4, ..Default::default() }));
         }
@@ -204,8 +222,9 @@ fn load_all(res: &String, other: &String, setup: &Setup, other_variant: u8, extr
             rets.push(format!("hotspot::load_rules_of_resource -> {:?}", hotspot::load_rules_of_resource(res, rules).ok()));
         }
     }
-    if let Some(b) = &setup.brk {
-        let mut rules = brk_rules(res, b);
+    if !setup.brk.is_empty() {
+        let mut rules = brk_rules(res, &setup.brk);
+        rules.reverse();
         if extra_lax {
             rules.push(Arc::new(cb::Rule { resource: res.clone(), strategy: cb::BreakerStrategy::ErrorCount, threshold: 1e9, stat_interval_ms: 60_000, retry_timeout_ms: 1, min_request_amount: 1_000_000_000, ..Default::default() }));
         }
@@ -292,12 +311,13 @@ fn execute(case: &Case, mode: Mode) -> Trace {
             }
         }
         // breaker state is part of the observation
-        if case.setup.brk.is_some() {
-            let st: Vec<String> = cb::get_breakers_of_resource(&res)
+        if !case.setup.brk.is_empty() {
+            let mut st: Vec<String> = cb::get_breakers_of_resource(&res)
                 .iter()
                 .filter(|b| b.bound_rule().threshold < 1e8)
-                .map(|b| format!("{:?}", b.current_state()))
+                .map(|b| format!("{}:{:?}", b.bound_rule().threshold, b.current_state()))
                 .collect();
+            st.sort();
             let last = tr.obs.last_mut().unwrap();
             last.push_str(&format!(" cb={}", st.join(",")));
         }
@@ -327,26 +347,48 @@ fn gen_setup(rng: &mut Rng) -> Setup {
         3 => Some(FlowKind::Throttle(*rng.pick(&[1.0, 2.0, 5.0]), *rng.pick(&[1000u32, 2000, 500]), *rng.pick(&[0u32, 300, 1500]))),
         _ => Some(FlowKind::WarmUp(*rng.pick(&[30.0, 60.0]), *rng.pick(&[0u32, 2, 3]), *rng.pick(&[1u32, 2, 3]))),
     };
-    let hot = match rng.below(5) {
-        0 | 1 => None,
-        2 => Some(HotKind::QpsReject { q: rng.range(1, 4), burst: rng.below(3), d: rng.range(1, 2) }),
-        3 => Some(HotKind::QpsThrottle { q: rng.range(1, 4), d: 1, maxq: *rng.pick(&[0u64, 400, 1500]) }),
-        _ => Some(HotKind::Concurrency { t: rng.range(1, 3) }),
+    let gen_hot = |rng: &mut Rng| match rng.below(3) {
+        0 => HotKind::QpsReject { q: rng.range(1, 4), burst: rng.below(3), d: rng.range(1, 2) },
+        1 => HotKind::QpsThrottle { q: rng.range(1, 4), d: 1, maxq: *rng.pick(&[0u64, 400, 1500]) },
+        _ => HotKind::Concurrency { t: rng.range(1, 3) },
     };
-    let brk = if rng.chance(1, 2) {
+    let mut hot = vec![];
+    match rng.below(6) {
+        0 | 1 => {}
+        2..=4 => hot.push(gen_hot(rng)),
+        _ => {
+            // two rules that can share statistics: same kind, different threshold
+            let a = gen_hot(rng);
+            let b = match &a {
+                HotKind::QpsReject { q, burst, d } => HotKind::QpsReject { q: q + 1 + rng.below(3), burst: *burst, d: *d },
+                HotKind::QpsThrottle { q, d, maxq } => HotKind::QpsThrottle { q: q + 1 + rng.below(3), d: *d, maxq: *maxq },
+                HotKind::Concurrency { t } => HotKind::Concurrency { t: t + 1 + rng.below(3) },
+            };
+            hot.push(a);
+            hot.push(b);
+        }
+    }
+    let mut brk = vec![];
+    if rng.chance(1, 2) {
         let strategy = rng.below(3) as u8;
-        Some(BrkSpec {
+        let first = BrkSpec {
             strategy,
             threshold: if strategy == 2 { *rng.pick(&[1.0, 2.0, 3.0]) } else { *rng.pick(&[0.3, 0.5, 1.0]) },
             interval: *rng.pick(&[1000u32, 2000]),
             buckets: *rng.pick(&[1u32, 2, 4]),
             retry: *rng.pick(&[300u32, 1000, 2500]),
             min: rng.range(0, 3),
-        })
-    } else {
-        None
-    };
-    if flow.is_none() && hot.is_none() && brk.is_none() {
+        };
+        // siblings that could share the statistic (same strategy / window / buckets), other threshold
+        let nsib = if rng.chance(1, 3) { rng.range(1, 2) } else { 0 };
+        for j in 0..nsib {
+            let mut sib = first.clone();
+            sib.threshold = if strategy == 2 { first.threshold + 1.0 + j as f64 } else { (first.threshold / (2.0 + j as f64)).max(0.05) };
+            brk.push(sib);
+        }
+        brk.push(first);
+    }
+    if flow.is_none() && hot.is_empty() && brk.is_empty() {
         return gen_setup(rng);
     }
     Setup { flow, hot, brk }
@@ -610,8 +652,8 @@ fn main() {
                 let fam = format!(
                     "{}|{}|{}",
                     match &case.setup.flow { None => "-", Some(FlowKind::Reject(v)) => if v.iter().any(|x| flow_private(x.1)) { "reject-private" } else { "reject-global" }, Some(FlowKind::Throttle(..)) => "throttle", Some(FlowKind::WarmUp(..)) => "warmup" },
-                    match &case.setup.hot { None => "-", Some(HotKind::QpsReject { .. }) => "qps-reject", Some(HotKind::QpsThrottle { .. }) => "qps-throttle", Some(HotKind::Concurrency { .. }) => "concurrency" },
-                    match &case.setup.brk { None => "-".to_string(), Some(b) => format!("cb{}", b.strategy) },
+                    match case.setup.hot.first() { None => "-".to_string(), Some(HotKind::QpsReject { .. }) => format!("qps-reject{}", case.setup.hot.len()), Some(HotKind::QpsThrottle { .. }) => format!("qps-throttle{}", case.setup.hot.len()), Some(HotKind::Concurrency { .. }) => format!("concurrency{}", case.setup.hot.len()) },
+                    match case.setup.brk.first() { None => "-".to_string(), Some(b) => format!("cb{}x{}", b.strategy, case.setup.brk.len()) },
                 );
                 let sig = if sensitive {
                     Some(format!("{fam}|via{}|lax{}|other{}", case.plan.via, case.plan.extra_lax as u8, case.plan.unrelated))
@@ -621,7 +663,7 @@ fn main() {
                 rep.case(sig, || case.to_json());
                 if let Some(d) = reload.identity_violation {
                     rep.violation(&format!("identity/object-replaced/{}", fam.split('|').zip(["flow", "hot", "cb"]).filter(|(f, _)| *f != "-").map(|(_, n)| n).collect::<Vec<_>>().join("+")), d, case.to_json());
-                } else if control.obs != reload.obs {
+                } else if control.obs != reload.obs && !case.setup.order_sensitive() {
                     let first = control.obs.iter().zip(reload.obs.iter()).position(|(a, b)| a != b).unwrap_or(0);
                     rep.violation(
                         &format!("trace/differs-after-reload/{fam}"),
